@@ -732,6 +732,39 @@ func (e *Env) call(x *ECall) (Val, types.Type) {
 			se.now = e.st
 		}
 		return se.eval(x.Args[0])
+	case "holds", "holdsw":
+		// holds(x, "mutexField") / holdsw(x, "mutexField"): the executing function holds that mutex of object x
+		// (in any mode / in write mode). Tracked for mutexes with a lock item; unknown at function entry unless required.
+		if len(x.Args) != 2 {
+			return e.fail("%s(x, \"mutexField\") needs two arguments", x.Fun)
+		}
+		s, ok := x.Args[1].(*EStr)
+		if !ok {
+			return e.fail("%s: the second argument must be a string literal naming the mutex field", x.Fun)
+		}
+		v, ty := arg(0)
+		pt, ok := ty.Underlying().(*types.Pointer)
+		if !ok {
+			return e.fail("%s: the first argument must be a pointer to the struct that owns the mutex", x.Fun)
+		}
+		stName := ""
+		if n, ok := types.Unalias(pt.Elem()).(*types.Named); ok {
+			stName = n.Obj().Name()
+		}
+		known := false
+		for _, l := range t.eng.contracts.Locks {
+			if l.Field == s.Val && l.Type == stName && l.Pkg == pkgPathOf(pt.Elem()) {
+				known = true
+			}
+		}
+		if !known {
+			return e.fail("%s: no lock item %s.%s", x.Fun, stName, s.Val)
+		}
+		m := fmt.Sprintf("(select %s %s)", t.get(e.st, t.lockModeVar(stName, s.Val).Name), v.T)
+		if x.Fun == "holdsw" {
+			return Val{T: fmt.Sprintf("(= %s 2)", m)}, tBool
+		}
+		return Val{T: fmt.Sprintf("(>= %s 1)", m)}, tBool
 	case "drained":
 		// drained(ch): the most recent channel operation of this function on ch was a non-blocking select with a
 		// receive case on ch that took its default branch (the queue was seen empty and nothing was sent since)
